@@ -630,6 +630,13 @@ where
                     go(rec, st, token_string::<B, P>(&p[p.len() - n..], f), &km.unseal, &aad, true, json!({"cls":"truncate-front","to":n}));
                 }
             }
+            // text-level extensions: further '.'-separated sections after the token
+            for tail in [".", "..", ".AAAA", "..AAAA", ".x", ". ", ".\u{0}"] {
+                let text = format!("{}{}", s.text, tail);
+                // a token without footer followed by a single '.' is the same token with an explicit empty footer
+                let same = f.is_empty() && tail == ".";
+                go(rec, st, text, &km.unseal, &aad, !same, json!({"cls":"extend-text","tail":tail}));
+            }
             for k in 1..=3usize {
                 let mut q = p.clone();
                 q.extend(std::iter::repeat_n(0u8, k));
